@@ -118,7 +118,10 @@ def case_control_sets(text):
             continue
         sid = int(m.group(1))
         body = m.group(2).strip()
-        while body.endswith(","):
+        # ("SET n =" alone on a line: wtset with a very short max_length wraps the whole
+        # list off the header line; read on, as pyYeti's reader does -- whether Nastran
+        # accepts that layout is not part of the round-trip property)
+        while body.endswith(",") or body == "":
             i += 1
             if i >= len(lines):
                 raise ValueError("SET ends with a comma at end of file")
